@@ -149,6 +149,14 @@ def run(ctx):
                 s = list(bases[0])
                 s[p], s[q], s[r] = c1, c2, c3
                 strings.append(tuple(s))
+    # identification fields whose twelve hex digits all come from a two-digit class - only 0/1 (the field then looks
+    # like a bit string), only A/F (letters only), only 0/9 (decimal digits only): every one of the 3 x 4096 fields
+    for lo, hi in ((0x0, 0x1), (0xA, 0xF), (0x0, 0x9)):
+        for bits in range(4096):
+            v = 0
+            for d in range(12):
+                v = (v << 4) | (hi if (bits >> (11 - d)) & 1 else lo)
+            strings.append(tuple((v >> (6 * (7 - i))) & 63 for i in range(8)))
     rng = random.Random(ctx.seed)
     strings += [tuple(rng.choice(LEGAL_CODES) for _ in range(8)) for _ in range(2000)]
     strings += [tuple(rng.randrange(64) for _ in range(8)) for _ in range(500)]
